@@ -18,8 +18,11 @@ import (
 	"net"
 	"net/http"
 	"net/netip"
+	"net/url"
 	"os"
 	"path/filepath"
+	"slices"
+	"sort"
 	"strings"
 	"testing"
 	"time"
@@ -63,6 +66,20 @@ type Op struct {
 	Client int  `json:"client,omitempty"`
 	Log    bool `json:"log,omitempty"`
 	Stats  bool `json:"stats,omitempty"`
+	// query: simulated milliseconds that pass before the request.
+	GapMs int `json:"gap_ms,omitempty"`
+	// page: one request of a listing the way the UI scrolls through the log.
+	// Older continues from the cursor ("oldest") of the previous page, if there
+	// is one; otherwise the newest page is requested (with Offset).
+	Limit  int    `json:"limit,omitempty"`
+	Older  bool   `json:"older,omitempty"`
+	Offset int    `json:"offset,omitempty"`
+	Search string `json:"search,omitempty"`
+	// Obs selects how the whole log is read back after the op: 0 = one request
+	// without cursor, 1 = one request with a cursor newer than every record
+	// (older_than in the future: must list the same), 2 = not read back after
+	// this op (the file, the statistics and the settings are still checked).
+	Obs int `json:"obs,omitempty"`
 }
 
 // Scenario is one case.
@@ -86,6 +103,8 @@ var (
 	cids     = []string{"phone", "tv", "other"}
 	leaseMAC = map[string]string{"198.51.100.200": "aa:bb:cc:dd:ee:01"}
 	qtypes   = []uint16{dns.TypeA, dns.TypeAAAA, dns.TypeTXT, dns.TypeANY}
+	gapsMs   = []int{0, 1, 1, 3, 1000}
+	searches = []string{"", "", "", "test", "c0", "192.0", "phone"}
 )
 
 func genIgnored(t *rapid.T, label string) []string {
@@ -105,28 +124,45 @@ func Gen(t *rapid.T, tier string) any {
 	if tier == "thorough" {
 		maxOps = 80
 	}
+	// listing: a page has been requested, i.e. a user has the log open and may
+	// scroll on; while that is so, further pages are more frequent.
+	listing := false
 	for i, n := 0, rapid.IntRange(4, maxOps).Draw(t, "n_ops"); i < n; i++ {
 		var op Op
-		switch k := rapid.IntRange(0, 99).Draw(t, "kind"); {
-		case k < 72:
-			op = Op{Kind: "query", Name: rapid.SampledFrom(qnames).Draw(t, "qname"), Qtype: rapid.SampledFrom(qtypes).Draw(t, "qtype"), Addr: rapid.SampledFrom(srcAddrs).Draw(t, "addr")}
+		k := rapid.IntRange(0, 99).Draw(t, "kind")
+		if listing && k < 14 {
+			k = 90
+		}
+		switch {
+		case k < 58:
+			op = Op{Kind: "query", Name: rapid.SampledFrom(qnames).Draw(t, "qname"), Qtype: rapid.SampledFrom(qtypes).Draw(t, "qtype"), Addr: rapid.SampledFrom(srcAddrs).Draw(t, "addr"),
+				GapMs: rapid.SampledFrom(gapsMs).Draw(t, "gap_ms")}
 			if rapid.IntRange(0, 3).Draw(t, "has_cid") == 0 {
 				op.CID = rapid.SampledFrom(cids).Draw(t, "cid")
 			}
-		case k < 78:
+		case k < 64:
 			op = Op{Kind: "log_config", Ignored: genIgnored(t, "new_log_ignored"), Anon: rapid.Bool().Draw(t, "new_anon")}
-		case k < 80:
+		case k < 67:
 			// the deprecated endpoint: only changes anonymisation here
 			op = Op{Kind: "log_config_legacy", Anon: rapid.Bool().Draw(t, "legacy_anon")}
-		case k < 86:
+		case k < 72:
 			op = Op{Kind: "stats_config", Ignored: genIgnored(t, "new_stats_ignored")}
-		case k < 93:
-			op = Op{Kind: "client_flags", Client: rapid.IntRange(0, 2).Draw(t, "cl_idx"), Log: rapid.Bool().Draw(t, "cl_log"), Stats: rapid.Bool().Draw(t, "cl_stats")}
-		case k < 97:
+		case k < 82:
+			op = Op{Kind: "client_flags", Client: rapid.IntRange(0, max(len(sc.Clients)-1, 0)).Draw(t, "cl_idx"), Log: rapid.Bool().Draw(t, "cl_log"), Stats: rapid.Bool().Draw(t, "cl_stats")}
+		case k < 85:
 			op = Op{Kind: "flush"}
-		default:
+		case k < 87:
 			op = Op{Kind: "advance"}
+		case k < 96:
+			op = Op{Kind: "page", Limit: rapid.IntRange(1, 3).Draw(t, "limit"), Older: listing && rapid.IntRange(0, 3).Draw(t, "older") > 0, Search: rapid.SampledFrom(searches).Draw(t, "search")}
+			if !op.Older {
+				op.Offset = rapid.SampledFrom([]int{0, 0, 1, 2}).Draw(t, "offset")
+			}
+			listing = true
+		default:
+			op = Op{Kind: "restart"}
 		}
+		op.Obs = rapid.SampledFrom([]int{0, 0, 1, 1, 2}).Draw(t, "obs")
 		sc.Ops = append(sc.Ops, op)
 	}
 	return sc
@@ -171,7 +207,11 @@ type mstate struct {
 	countedOpt      int   // optional ones
 	countedShadow   int   // must not be counted: ignored client hidden behind a masked address
 	domains         map[string]bool
-	statClients     map[string]bool
+	// statClients are the full addresses that were counted while anonymisation
+	// was off (the only un-masked addresses the statistics may report).
+	statClients map[string]bool
+	// the accepted settings, as the user entered them
+	logIgnList, statIgnList []string
 }
 
 // attribute returns the index of the persistent client owning (cid, addr) by
@@ -253,6 +293,153 @@ type runner struct {
 	dir  string
 	find func([]string) (*querylog.Client, error)
 	cnt  func([]string) bool
+	// saved is what the configuration file holds: the settings the instance
+	// was started from, replaced by what query log and statistics report
+	// through WriteDiskConfig whenever a configuration-modified callback fires.
+	saved saved
+	// cursor is the "oldest" value of the last page of the listing a user is
+	// scrolling through ("" = none).
+	cursor string
+	// dirty: a setting was changed through the API since the last (re)start.
+	dirty bool
+}
+
+// saved is the part of the configuration file that belongs to the query log
+// and the statistics.
+type saved struct {
+	LogIgnored  []string
+	LogEnabled  bool
+	FileEnabled bool
+	LogIvl      time.Duration
+	MemSize     uint
+	Anon        bool
+
+	StatsIgnored []string
+	StatsEnabled bool
+	StatsLimit   time.Duration
+}
+
+// writeConfig is home's configuration.write reduced to the two components of
+// this property: every component is asked for its current settings again.
+func (r *runner) writeConfig() {
+	if r.ql != nil {
+		dc := querylog.Config{}
+		r.ql.WriteDiskConfig(&dc)
+		r.saved.Anon = dc.AnonymizeClientIP
+		r.saved.LogEnabled = dc.Enabled
+		r.saved.FileEnabled = dc.FileEnabled
+		r.saved.LogIvl = dc.RotationIvl
+		r.saved.MemSize = dc.MemSize
+		r.saved.LogIgnored = dc.Ignored.Values()
+	}
+	if r.st != nil {
+		sc := stats.Config{}
+		r.st.WriteDiskConfig(&sc)
+		r.saved.StatsLimit = sc.Limit
+		r.saved.StatsEnabled = sc.Enabled
+		r.saved.StatsIgnored = sc.Ignored.Values()
+	}
+	r.c.Probe("config_written")
+}
+
+// start builds query log, statistics and the DNS node from the saved
+// configuration and the given persistent clients, the way home does at start.
+func (r *runner) start(clients []*client.Persistent) error {
+	sv := r.saved
+	var anonFn aghnet.IPMutFunc
+	if sv.Anon {
+		anonFn = querylog.AnonymizeIP
+	}
+	anonymizer := aghnet.NewIPMut(anonFn)
+	mux := env.NewMux()
+	logger := slog.New(slog.DiscardHandler)
+	logEng, err := aghnet.NewIgnoreEngine(sv.LogIgnored)
+	if err != nil {
+		return fmt.Errorf("harness: log ignore engine: %w", err)
+	}
+	statEng, err := aghnet.NewIgnoreEngine(sv.StatsIgnored)
+	if err != nil {
+		return fmt.Errorf("harness: stats ignore engine: %w", err)
+	}
+	ql, err := querylog.New(querylog.Config{Logger: logger, Ignored: logEng, Anonymizer: anonymizer, ConfigModified: r.writeConfig, HTTPRegister: mux.Register,
+		FindClient: func(ids []string) (*querylog.Client, error) { return r.find(ids) }, BaseDir: r.dir, RotationIvl: sv.LogIvl,
+		MemSize: sv.MemSize, Enabled: sv.LogEnabled, FileEnabled: sv.FileEnabled, AnonymizeClientIP: sv.Anon})
+	if err != nil {
+		return err
+	}
+	r.ql = ql
+	querylog.VerifInitWeb(ql)
+	st, err := stats.New(stats.Config{Logger: logger, Filename: filepath.Join(r.dir, "stats.db"), Limit: sv.StatsLimit, Enabled: sv.StatsEnabled, Ignored: statEng,
+		ConfigModified: r.writeConfig, HTTPRegister: mux.Register, ShouldCountClient: func(ids []string) bool { return r.cnt(ids) }})
+	if err != nil {
+		return err
+	}
+	r.st = st
+	st.VerifInitWeb()
+	up := &env.Upstream{Addr: "sim-upstream:53", Answer: env.DefaultAnswer}
+	cfg := &dnsnode.Config{Dir: r.dir, ListServer: env.NewListServer(), Upstream: up, UpTimeout: 2 * time.Second, ServerName: serverName,
+		QueryLog: ql, Stats: st, Anonymizer: anonymizer, ClientDHCP: simDHCP{}, InitialClients: clients}
+	cfg.Filtering = filtering.Config{BlockingMode: filtering.BlockingModeDefault, ProtectionEnabled: true, FilteringEnabled: true, FiltersUpdateIntervalHours: 24}
+	cfg.DNS = dnsforward.Config{RefuseAny: r.sc.RefuseAny}
+	n, err := dnsnode.New(cfg)
+	if err != nil {
+		return err
+	}
+	r.n = n
+	r.find, r.cnt = home.VerifClientFuncs(n.Clients, n.Server)
+	// The handlers of query log and statistics live on their own mux;
+	// merge them into the node's.
+	for _, rt := range mux.Routes() {
+		n.Mux.Register(rt.Method, rt.Path, rt.Handler)
+	}
+	r.dirty = false
+	kernel.Wait()
+	return nil
+}
+
+// stop stops the instance: cleanly (the query log flushes its buffer, the
+// statistics their current unit) or, at the end of the case, the cheap way.
+func (r *runner) stop(clean bool) error {
+	if r.n != nil {
+		r.n.Close()
+		r.n = nil
+	}
+	if clean && r.ql != nil {
+		if err := r.ql.Shutdown(context.Background()); err != nil && !strings.Contains(err.Error(), "nothing to write") {
+			return fmt.Errorf("harness: query log shutdown: %w", err)
+		}
+	}
+	if r.st != nil {
+		if clean {
+			if err := r.st.Close(); err != nil {
+				return fmt.Errorf("harness: statistics close: %w", err)
+			}
+		} else {
+			r.st.VerifCrash()
+		}
+		r.st = nil
+	}
+	r.ql = nil
+	kernel.Wait()
+	return nil
+}
+
+// restart is a clean stop followed by a start from the configuration file as
+// the system itself last wrote it; the persistent clients are the ones the
+// client storage holds (home writes them on every change).
+func (r *runner) restart() error {
+	var clients []*client.Persistent
+	r.n.Clients.RangeByName(func(p *client.Persistent) bool {
+		clients = append(clients, p.ShallowClone())
+		return true
+	})
+	if r.dirty {
+		r.c.Probe("restart_after_config_change")
+	}
+	if err := r.stop(true); err != nil {
+		return err
+	}
+	return r.start(clients)
 }
 
 func (r *runner) api(method, path string, body any) (int, []byte, error) {
@@ -289,6 +476,11 @@ func (r *runner) query(op Op) error {
 	}
 	wantLog := !m.logIgn.has(host) && !(owner >= 0 && m.clients[owner].IgnoreLog)
 	wantCount := !m.statIgn.has(host) && !(owner >= 0 && m.clients[owner].IgnoreStats)
+	if op.GapMs > 0 {
+		d := time.Duration(op.GapMs) * time.Millisecond
+		time.Sleep(d)
+		r.c.SimTime += d
+	}
 	rep := r.n.Do(q)
 	kernel.Wait()
 	if rep.WireErr != nil {
@@ -311,6 +503,9 @@ func (r *runner) query(op Op) error {
 		}
 	}
 	if wantCount {
+		if !m.anon {
+			m.statClients[stored] = true
+		}
 		if optional {
 			m.countedOpt++
 		} else {
@@ -366,21 +561,120 @@ type apiEntry struct {
 	} `json:"question"`
 }
 
-func (r *runner) readAPI() ([]apiEntry, error) {
-	code, body, err := r.api("GET", "/control/querylog?limit=1000", nil)
+// list sends GET /control/querylog with the given parameters.
+func (r *runner) list(params url.Values) (ents []apiEntry, oldest string, err error) {
+	code, body, err := r.api("GET", "/control/querylog?"+params.Encode(), nil)
 	if err != nil {
-		return nil, err
+		return nil, "", err
 	}
 	if code != http.StatusOK {
-		return nil, kernel.Violationf("api-status", "GET /control/querylog -> %d %s", code, body)
+		return nil, "", kernel.Violationf("api-status", "GET /control/querylog?%s -> %d %s", params.Encode(), code, body)
 	}
 	var resp struct {
-		Data []apiEntry `json:"data"`
+		Data   []apiEntry `json:"data"`
+		Oldest string     `json:"oldest"`
 	}
 	if err = json.Unmarshal(body, &resp); err != nil {
-		return nil, kernel.Violationf("api-json", "%v", err)
+		return nil, "", kernel.Violationf("api-json", "%v", err)
 	}
-	return resp.Data, nil
+	return resp.Data, resp.Oldest, nil
+}
+
+// readAPI reads the whole log back: without a cursor, or (cursorForm) with a
+// cursor that is newer than every record, which must list the same.
+func (r *runner) readAPI(cursorForm bool) ([]apiEntry, error) {
+	params := url.Values{"limit": {"1000"}}
+	if cursorForm {
+		params.Set("older_than", time.Now().Add(time.Hour).UTC().Format(time.RFC3339Nano))
+		r.c.Probe("obs_cursor_listing")
+	}
+	ents, _, err := r.list(params)
+	return ents, err
+}
+
+// visible is what the log API may return now (oldest first): everything
+// recorded, minus what is currently ignored, masked on output when
+// anonymisation is on now.
+func (r *runner) visible() (visible []rec) {
+	m := r.m
+	for _, e := range m.log {
+		ip := e.ip
+		if a, err := netip.ParseAddr(ip); err == nil {
+			if m.logIgn.has(e.host) {
+				continue
+			}
+			if o := m.attribute(e.cid, a); o >= 0 && m.clients[o].IgnoreLog {
+				continue
+			}
+			if m.anon {
+				ip = mask(a).String()
+			}
+		}
+		visible = append(visible, rec{host: e.host, ip: ip, cid: e.cid, optional: e.optional, shadow: e.shadow})
+	}
+	return visible
+}
+
+// toRecs converts API entries (newest first) to records, oldest first.
+func (r *runner) toRecs(ents []apiEntry) (out []rec, err error) {
+	for i := len(ents) - 1; i >= 0; i-- {
+		e := ents[i]
+		if r.m.anon && !isMasked(e.Client) {
+			return nil, kernel.Violationf("api-unmasked-address", "anonymisation is on but GET /control/querylog reports client %q", e.Client)
+		}
+		out = append(out, rec{host: e.Question.Name, ip: e.Client, cid: e.ClientID})
+	}
+	return out, nil
+}
+
+// page is one request of a user scrolling through the log.  Which of the
+// allowed records a page holds is not this property's business (limits,
+// offsets, cursors and search terms select them); what it must never hold is a
+// record that is currently ignored, was never recorded, or shows an un-masked
+// address: the page must be an ordered selection of the allowed records.
+func (r *runner) page(op Op) error {
+	params := url.Values{"limit": {fmt.Sprint(op.Limit)}}
+	older := op.Older && r.cursor != ""
+	if older {
+		params.Set("older_than", r.cursor)
+		r.c.Probe("page_older")
+	} else {
+		if op.Offset > 0 {
+			params.Set("offset", fmt.Sprint(op.Offset))
+		}
+		r.c.Probe("page_first")
+	}
+	if op.Search != "" {
+		params.Set("search", op.Search)
+	}
+	ents, oldest, err := r.list(params)
+	if err != nil {
+		return err
+	}
+	r.c.Eventf("page limit=%d older=%v offset=%d search=%q -> %d entries, more=%v", op.Limit, older, op.Offset, op.Search, len(ents), oldest != "")
+	r.cursor = oldest
+	if older && len(ents) > 0 {
+		r.c.Probe("page_older_nonempty")
+	}
+	got, err := r.toRecs(ents)
+	if err != nil {
+		return err
+	}
+	allowed := r.visible()
+	for i := range allowed {
+		if !allowed[i].shadow {
+			allowed[i].optional = true
+		}
+	}
+	bad, _, shadow := matchSeq(allowed, got, false)
+	if bad >= 0 {
+		a := got[bad]
+		return r.classify("api", a.host, a.ip, a.cid, fmt.Sprintf("GET /control/querylog?%s returns {name:%q client:%q client_id:%q} which the reference model does not allow on any page (currently ignored name / client, or never recorded); allowed now (oldest first): %v; page (oldest first): %v", params.Encode(), a.host, a.ip, a.cid, allowed, got))
+	}
+	if shadow != nil {
+		return r.shadowViolation("GET /control/querylog?"+params.Encode(), shadow)
+	}
+	return nil
 }
 
 // matchSeq checks that actual (oldest first) can be explained by the expected
@@ -481,7 +775,7 @@ func (r *runner) shadowViolation(where string, s *rec) error {
 	return v
 }
 
-func (r *runner) check() error {
+func (r *runner) check(obs int) error {
 	m := r.m
 	// (a) raw file: every line must be a record the model expects, in order;
 	// the file holds the oldest part of the log.
@@ -506,46 +800,14 @@ func (r *runner) check() error {
 	_ = raw
 	// (b) API: everything recorded, minus what is currently ignored, newest
 	// first; masked on output when anonymisation is on now.
-	ents, err := r.readAPI()
-	if err != nil {
+	if obs == 2 {
+		r.c.Probe("obs_skipped")
+	} else if err = r.checkAPI(obs == 1); err != nil {
 		return err
 	}
-	var apiRecs []rec
-	for i := len(ents) - 1; i >= 0; i-- {
-		e := ents[i]
-		if m.anon && !isMasked(e.Client) {
-			return kernel.Violationf("api-unmasked-address", "anonymisation is on but GET /control/querylog reports client %q", e.Client)
-		}
-		apiRecs = append(apiRecs, rec{host: e.Question.Name, ip: e.Client, cid: e.ClientID})
-	}
-	var visible []rec
-	for _, e := range m.log {
-		ip := e.ip
-		if a, err := netip.ParseAddr(ip); err == nil {
-			if m.logIgn.has(e.host) {
-				continue
-			}
-			if o := m.attribute(e.cid, a); o >= 0 && m.clients[o].IgnoreLog {
-				continue
-			}
-			if m.anon {
-				ip = mask(a).String()
-			}
-		}
-		visible = append(visible, rec{host: e.host, ip: ip, cid: e.cid, optional: e.optional, shadow: e.shadow})
-	}
-	bad, miss, shadow := matchSeq(visible, apiRecs, false)
-	if shadow != nil && bad < 0 && miss == nil {
-		if err = r.shadowViolation("GET /control/querylog", shadow); err != nil {
-			return err
-		}
-	}
-	if bad >= 0 || miss != nil {
-		if bad >= 0 {
-			a := apiRecs[bad]
-			return r.classify("api", a.host, a.ip, a.cid, fmt.Sprintf("GET /control/querylog returns {name:%q client:%q client_id:%q} which the reference model does not allow (currently ignored name / client, or never recorded); allowed now (oldest first): %v; api (oldest first): %v", a.host, a.ip, a.cid, visible, apiRecs))
-		}
-		return kernel.Violationf("log-entry-missing", "record {name:%q client:%q client_id:%q} should be returned by the query-log API but is not; api (oldest first): %v", miss.host, miss.ip, miss.cid, apiRecs)
+	// (b') the settings the system reports are the accepted ones.
+	if err = r.checkSettings(); err != nil {
+		return err
 	}
 	// (c) statistics.
 	code, body, err := r.api("GET", "/control/stats", nil)
@@ -587,10 +849,118 @@ func (r *runner) check() error {
 				if o := m.attribute("", a); o >= 0 && m.clients[o].IgnoreStats {
 					return kernel.Violationf("stats-ignored-client", "statistics report the ignored client %q", cl)
 				}
+				if !isMasked(cl) && !m.statClients[a.Unmap().String()] {
+					return kernel.Violationf("stats-unmasked-address", "statistics report the client address %q, but no request from it was counted while anonymisation was off (full addresses counted then: %v)", cl, sortedKeys(m.statClients))
+				}
 			}
 		}
 	}
 	return nil
+}
+
+func (r *runner) checkAPI(cursorForm bool) error {
+	ents, err := r.readAPI(cursorForm)
+	if err != nil {
+		return err
+	}
+	apiRecs, err := r.toRecs(ents)
+	if err != nil {
+		return err
+	}
+	visible := r.visible()
+	bad, miss, shadow := matchSeq(visible, apiRecs, false)
+	if shadow != nil && bad < 0 && miss == nil {
+		if err = r.shadowViolation("GET /control/querylog", shadow); err != nil {
+			return err
+		}
+	}
+	if bad >= 0 || miss != nil {
+		form := ""
+		if cursorForm {
+			form = " (with older_than newer than every record)"
+		}
+		if bad >= 0 {
+			a := apiRecs[bad]
+			return r.classify("api", a.host, a.ip, a.cid, fmt.Sprintf("GET /control/querylog%s returns {name:%q client:%q client_id:%q} which the reference model does not allow (currently ignored name / client, or never recorded); allowed now (oldest first): %v; api (oldest first): %v", form, a.host, a.ip, a.cid, visible, apiRecs))
+		}
+		return kernel.Violationf("log-entry-missing", "record {name:%q client:%q client_id:%q} should be returned by the query-log API%s but is not; api (oldest first): %v", miss.host, miss.ip, miss.cid, form, apiRecs)
+	}
+	return nil
+}
+
+func sortedKeys(m map[string]bool) []string {
+	out := make([]string, 0, len(m))
+	for k := range m {
+		out = append(out, k)
+	}
+	sort.Strings(out)
+	return out
+}
+
+func sameSet(a, b []string) bool {
+	x, y := append([]string(nil), a...), append([]string(nil), b...)
+	sort.Strings(x)
+	sort.Strings(y)
+	return slices.Equal(x, y)
+}
+
+// checkSettings reads the settings back through every endpoint that reports
+// them: what "anonymisation is on" and "is on the ignore list" mean to the
+// user is what was accepted and is reported there.
+func (r *runner) checkSettings() error {
+	m := r.m
+	get := func(path string, v any) error {
+		code, body, err := r.api("GET", path, nil)
+		if err != nil {
+			return err
+		}
+		if code != http.StatusOK {
+			return kernel.Violationf("api-status", "GET %s -> %d %s", path, code, body)
+		}
+		if err = json.Unmarshal(body, v); err != nil {
+			return kernel.Violationf("api-json", "GET %s: %v", path, err)
+		}
+		return nil
+	}
+	var lc struct {
+		Ignored []string `json:"ignored"`
+		Anon    *bool    `json:"anonymize_client_ip"`
+	}
+	if err := get("/control/querylog/config", &lc); err != nil {
+		return err
+	}
+	if lc.Anon == nil || *lc.Anon != m.anon {
+		return kernel.Violationf("config-report-mismatch", "GET /control/querylog/config reports anonymize_client_ip=%s, the accepted setting is %v", fmtBool(lc.Anon), m.anon)
+	}
+	if !sameSet(lc.Ignored, m.logIgnList) {
+		return kernel.Violationf("config-report-mismatch", "GET /control/querylog/config reports ignored=%q, the accepted list is %q", lc.Ignored, m.logIgnList)
+	}
+	var li struct {
+		Anon *bool `json:"anonymize_client_ip"`
+	}
+	if err := get("/control/querylog_info", &li); err != nil {
+		return err
+	}
+	if li.Anon == nil || *li.Anon != m.anon {
+		return kernel.Violationf("config-report-mismatch", "GET /control/querylog_info reports anonymize_client_ip=%s, the accepted setting is %v", fmtBool(li.Anon), m.anon)
+	}
+	var sc struct {
+		Ignored []string `json:"ignored"`
+	}
+	if err := get("/control/stats/config", &sc); err != nil {
+		return err
+	}
+	if !sameSet(sc.Ignored, m.statIgnList) {
+		return kernel.Violationf("config-report-mismatch", "GET /control/stats/config reports ignored=%q, the accepted list is %q", sc.Ignored, m.statIgnList)
+	}
+	return nil
+}
+
+func fmtBool(b *bool) string {
+	if b == nil {
+		return "<absent>"
+	}
+	return fmt.Sprint(*b)
 }
 
 // classify names the violation after the forbidden content found.
@@ -646,7 +1016,8 @@ func (r *runner) apply(op Op) error {
 			return fmt.Errorf("harness: querylog config -> %d %s", code, body)
 		}
 		m.logIgn.close()
-		m.logIgn, m.anon = newIgnoreSet(op.Ignored), op.Anon
+		m.logIgn, m.anon, m.logIgnList = newIgnoreSet(op.Ignored), op.Anon, op.Ignored
+		r.dirty = true
 		r.c.Fault("live_log_config_change")
 	case "log_config_legacy":
 		code, body, err := r.api("POST", "/control/querylog_config", map[string]any{"anonymize_client_ip": op.Anon})
@@ -657,6 +1028,7 @@ func (r *runner) apply(op Op) error {
 			return fmt.Errorf("harness: legacy querylog config -> %d %s", code, body)
 		}
 		m.anon = op.Anon
+		r.dirty = true
 		r.c.Fault("live_log_config_change")
 		r.c.Probe("legacy_config_endpoint")
 	case "stats_config":
@@ -668,7 +1040,8 @@ func (r *runner) apply(op Op) error {
 			return fmt.Errorf("harness: stats config -> %d %s", code, body)
 		}
 		m.statIgn.close()
-		m.statIgn = newIgnoreSet(op.Ignored)
+		m.statIgn, m.statIgnList = newIgnoreSet(op.Ignored), op.Ignored
+		r.dirty = true
 		r.c.Fault("live_stats_config_change")
 	case "client_flags":
 		if op.Client >= len(m.clients) {
@@ -683,6 +1056,8 @@ func (r *runner) apply(op Op) error {
 		if err = r.n.Clients.Update(context.Background(), c.Name, p); err != nil {
 			return fmt.Errorf("harness: client update: %w", err)
 		}
+		// home writes the configuration file after every client change.
+		r.writeConfig()
 		r.c.Fault("live_client_flag_change")
 	case "flush":
 		if err := querylog.VerifFlush(context.Background(), r.ql); err != nil && !strings.Contains(err.Error(), "nothing to write") {
@@ -692,6 +1067,15 @@ func (r *runner) apply(op Op) error {
 	case "advance":
 		time.Sleep(7 * time.Second)
 		r.c.SimTime += 7 * time.Second
+	case "page":
+		if err := r.page(op); err != nil {
+			return err
+		}
+	case "restart":
+		if err := r.restart(); err != nil {
+			return err
+		}
+		r.c.Fault("restart_from_saved_config")
 	}
 	kernel.Wait()
 	return nil
@@ -724,63 +1108,29 @@ func Run(t *testing.T, scAny any, c *kernel.Ctx) error {
 	return kernel.Bubble(t, func() error {
 		time.Sleep(5 * time.Minute) // stay well inside one statistics hour
 		r := &runner{c: c, sc: sc, dir: dir}
-		r.m = &mstate{logIgn: newIgnoreSet(sc.LogIgnored), statIgn: newIgnoreSet(sc.StatsIgnored), anon: sc.Anon, clients: append([]Client(nil), sc.Clients...), domains: map[string]bool{}}
+		r.m = &mstate{logIgn: newIgnoreSet(sc.LogIgnored), statIgn: newIgnoreSet(sc.StatsIgnored), anon: sc.Anon, clients: append([]Client(nil), sc.Clients...), domains: map[string]bool{},
+			statClients: map[string]bool{}, logIgnList: sc.LogIgnored, statIgnList: sc.StatsIgnored}
 		defer func() { r.m.logIgn.close(); r.m.statIgn.close() }()
-		var anonFn aghnet.IPMutFunc
-		if sc.Anon {
-			anonFn = querylog.AnonymizeIP
-		}
-		anonymizer := aghnet.NewIPMut(anonFn)
-		mux := env.NewMux()
-		logger := slog.New(slog.DiscardHandler)
-		logEng, _ := aghnet.NewIgnoreEngine(sc.LogIgnored)
-		statEng, _ := aghnet.NewIgnoreEngine(sc.StatsIgnored)
-		ql, err := querylog.New(querylog.Config{Logger: logger, Ignored: logEng, Anonymizer: anonymizer, ConfigModified: func() {}, HTTPRegister: mux.Register,
-			FindClient: func(ids []string) (*querylog.Client, error) { return r.find(ids) }, BaseDir: dir, RotationIvl: 24 * time.Hour,
-			MemSize: sc.MemSize, Enabled: true, FileEnabled: true, AnonymizeClientIP: sc.Anon})
-		if err != nil {
-			return err
-		}
-		r.ql = ql
-		querylog.VerifInitWeb(ql)
-		st, err := stats.New(stats.Config{Logger: logger, Filename: filepath.Join(dir, "stats.db"), Limit: 24 * time.Hour, Enabled: true, Ignored: statEng,
-			ConfigModified: func() {}, HTTPRegister: mux.Register, ShouldCountClient: func(ids []string) bool { return r.cnt(ids) }})
-		if err != nil {
-			return err
-		}
-		r.st = st
-		st.VerifInitWeb()
-		defer st.VerifCrash()
-		up := &env.Upstream{Addr: "sim-upstream:53", Answer: env.DefaultAnswer}
-		cfg := &dnsnode.Config{Dir: dir, ListServer: env.NewListServer(), Upstream: up, UpTimeout: 2 * time.Second, ServerName: serverName,
-			QueryLog: ql, Stats: st, Anonymizer: anonymizer, ClientDHCP: simDHCP{}}
-		cfg.Filtering = filtering.Config{BlockingMode: filtering.BlockingModeDefault, ProtectionEnabled: true, FilteringEnabled: true, FiltersUpdateIntervalHours: 24}
-		cfg.DNS = dnsforward.Config{RefuseAny: sc.RefuseAny}
+		// The configuration file the instance is started from.
+		r.saved = saved{LogIgnored: sc.LogIgnored, LogEnabled: true, FileEnabled: true, LogIvl: 24 * time.Hour, MemSize: sc.MemSize, Anon: sc.Anon,
+			StatsIgnored: sc.StatsIgnored, StatsEnabled: true, StatsLimit: 24 * time.Hour}
+		var initial []*client.Persistent
 		for _, cl := range sc.Clients {
 			p, err := toPersistent(cl)
 			if err != nil {
 				return err
 			}
-			cfg.InitialClients = append(cfg.InitialClients, p)
+			initial = append(initial, p)
 		}
-		n, err := dnsnode.New(cfg)
-		if err != nil {
+		defer func() { _ = r.stop(false) }()
+		if err := r.start(initial); err != nil {
 			return err
 		}
-		defer n.Close()
-		r.n = n
-		r.find, r.cnt = home.VerifClientFuncs(n.Clients, n.Server)
-		// The handlers of query log and statistics live on their own mux;
-		// merge them into the node's.
-		for _, rt := range mux.Routes() {
-			n.Mux.Register(rt.Method, rt.Path, rt.Handler)
-		}
-		kernel.Wait()
 		for i, op := range sc.Ops {
 			c.Eventf("op %d %s", i, op.Kind)
 			err := r.apply(op)
 			if err == nil {
-				err = r.check()
+				err = r.check(op.Obs)
 			}
 			if err != nil {
 				if v, ok := err.(*kernel.Violation); ok {
@@ -798,7 +1148,7 @@ func Run(t *testing.T, scAny any, c *kernel.Ctx) error {
 var Prop = &kernel.Property{
 	ID:    "C08",
 	Level: "exploration",
-	Rule: "seeded histories (rapid): ignore lists for log and statistics (plain names, ||rules^, wildcards, the root |.^, mixed case), persistent clients identified by IP / CIDR / MAC (through a DHCP lease) / ClientID with ignore flags, anonymisation on/off, ANY-refusal on/off, memory sizes 1..50; ops = queries (any case, root, ANY, 8 sources incl. 4-in-6, ClientIDs over TLS) interleaved with live changes of both ignore lists, anonymisation and client flags, forced flushes and clock advances; after every op the raw log file, GET /control/querylog and GET /control/stats are compared with the reference model; " +
+	Rule: "seeded histories (rapid): ignore lists for log and statistics (plain names, ||rules^, wildcards, the root |.^, mixed case), persistent clients identified by IP / CIDR / MAC (through a DHCP lease) / ClientID with ignore flags, anonymisation on/off, ANY-refusal on/off, memory sizes 1..50; ops = queries (any case, root, ANY, 8 sources incl. 4-in-6, ClientIDs over TLS) interleaved with live changes of both ignore lists, anonymisation (current and deprecated endpoint) and client flags, forced flushes, clock advances, pages of a listing a user scrolls through (limit 1..3, older_than cursor of the previous page, offset, search terms) and clean restarts from the configuration the components themselves last reported at their configuration-modified callback; after every op the raw log file, GET /control/querylog (without cursor, with a cursor newer than every record, or not at all), GET /control/stats and the settings reported by GET querylog/config, querylog_info and stats/config are compared with the reference model; " +
 		"non-trivial = at least one query was recorded and at least one was withheld from the log or the statistics; distinct = distinct scenario digests",
 	Gen: Gen,
 	New: func() any { return &Scenario{} },
@@ -807,8 +1157,8 @@ var Prop = &kernel.Property{
 		return c.Probes["query_logged"] > 0 && (c.Probes["query_not_logged"]+c.Probes["query_not_counted"] > 0)
 	},
 	Real:        []string{"internal/querylog (memory ring, file, search, HTTP handlers, config update)", "internal/stats + bbolt", "internal/dnsforward (processQueryLogsAndStats, anonymiser)", "internal/home callbacks findMultiple / shouldCountClient (via VerifClientFuncs)", "internal/client.Storage", "internal/aghnet (IgnoreEngine, IPMut)"},
-	Stub:        []string{"upstream resolver", "client sockets", "DHCP lease table (one static lease)", "query-log rotation and statistics flush loops (not started; the case stays inside one hour)"},
+	Stub:        []string{"upstream resolver", "client sockets", "DHCP lease table (one static lease)", "query-log rotation and statistics flush loops (not started; the case stays inside one hour)", "the configuration file (kept in memory: what query log and statistics report through WriteDiskConfig whenever a configuration-modified callback fires, as home's configuration.write collects it; a restart starts from it)"},
 	Assumptions: []string{"ignore patterns are matched by urlfilter (trusted) against the lower-cased name", "a request is attributed to an ignored client by its real identity: ClientID > exact IP > most specific CIDR > MAC of the lease", "ANY queries under ANY-refusal may or may not be recorded (the statement does not say)"},
-	FaultKinds:  []string{"live_log_config_change", "live_stats_config_change", "live_client_flag_change", "flush_to_disk"},
-	ProbeNames:  []string{"query_logged", "query_not_logged", "query_not_counted", "ignored_client_query", "ignored_client_query_anonymised", "legacy_config_endpoint"},
+	FaultKinds:  []string{"live_log_config_change", "live_stats_config_change", "live_client_flag_change", "flush_to_disk", "restart_from_saved_config"},
+	ProbeNames:  []string{"query_logged", "query_not_logged", "query_not_counted", "ignored_client_query", "ignored_client_query_anonymised", "legacy_config_endpoint", "page_first", "page_older", "page_older_nonempty", "obs_cursor_listing", "obs_skipped", "config_written", "restart_after_config_change"},
 }
